@@ -499,6 +499,13 @@ func (e *escaper) escapeTree(c context, node parse.Node, name string, line int) 
 		return out, dname
 	}
 	t := e.template(name)
+	if t != nil && t.Tree == nil {
+		// The template was rendered unusable by an earlier escaping error.
+		return context{
+			state: stateError,
+			err:   errorf(ErrNoSuchTemplate, node, line, "%q could not be escaped earlier and is unusable", name),
+		}, dname
+	}
 	if t == nil {
 		// Two cases: The template exists but is empty, or has never been mentioned at
 		// all. Distinguish the cases in the error messages.
